@@ -290,6 +290,12 @@ def _closure(ctx, paths) -> None:
             ctx.unverified("KEY-CLOSURE", f"{loc}", f"locale literal not foldable: {e}", f"src/pendulum/locales/{loc}/locale.py")
             continue
         rel = f"src/pendulum/locales/{loc}/locale.py"
+        try:
+            PLURAL_TABLES[loc] = tuple(lambda_eval(data["plural"], n) for n in range(0, 1001))
+            if "ordinal" in data:
+                ORDINAL_TABLES[loc] = tuple(lambda_eval(data["ordinal"], n) for n in range(0, 1001))
+        except (core.Unsupported, core.NotConst, KeyError):
+            pass
         ctx.ob("PLURAL.range", f"{loc}/plural", reach <= plurals, f"classes reached for 0..1000 {sorted(reach)} vs result constants {sorted(plurals)}", rel,
                nontrivial=False)
         few = resolve(data, "custom.units.few_second")[0] == "OK"
@@ -349,6 +355,40 @@ def _closure(ctx, paths) -> None:
         _tokens(ctx, loc, data, rel)
         _direction_markers(ctx, loc, data, rel)
     ctx.count("key_instances", total)
+    _plural_siblings(ctx)
+
+
+PLURAL_TABLES: dict[str, tuple] = {}
+ORDINAL_TABLES: dict[str, tuple] = {}
+# Locales whose CLDR plural rules coincide on the non-negative integers (confirmed by reading the CLDR rules: cs = sk: one 1, few 2-4; the
+# Germanic / Romance group: one exactly 1; fa / fr / pt_br: one for 0 and 1; id / ja / ko / zh: no plural; ru = ua: one 1 / few 2-4 / many
+# by last digit, 11-14 many) and whose English ordinal rules coincide.  he, lt and pl have no sibling among the shipped locales.
+PLURAL_SIBLINGS = [("cs", "sk"), ("da", "de", "en", "en_gb", "en_us", "es", "fo", "it", "nb", "nl", "nn", "sv", "tr"), ("fa", "fr", "pt_br"), ("id", "ja", "ko", "zh"), ("ru", "ua")]
+ORDINAL_SIBLINGS = [("en", "en_gb", "en_us")]
+
+
+def _plural_siblings(ctx) -> None:
+    """PLURAL.sibling: locales whose plural (ordinal) rules are the same in CLDR must give the same plural class for every count 0..1000 - a cell
+    of one locale's rule changed on its own shows as a disagreement with its siblings (which of the two is right is not decided without CLDR:
+    the majority of the group, or for a pair both members, are named)."""
+    for tables, groups, what in ((PLURAL_TABLES, PLURAL_SIBLINGS, "plural"), (ORDINAL_TABLES, ORDINAL_SIBLINGS, "ordinal")):
+        for grp in groups:
+            have = [l for l in grp if l in tables]
+            if len(have) < 2:
+                continue
+            import collections
+            votes = collections.Counter(tables[l] for l in have)
+            ref, cnt = votes.most_common(1)[0]
+            for l in have:
+                if tables[l] != ref or (cnt * 2 <= len(have) and len(votes) > 1):
+                    other = next(x for x in have if tables[x] != tables[l]) if len(votes) > 1 else None
+                    if other is None:
+                        continue
+                    n_ = next(i for i in range(1001) if tables[l][i] != tables[other][i])
+                    ctx.ob("PLURAL.sibling", f"{l}/{what}", False, f"{what} class of {n_} is `{tables[l][n_]}` in {l} but `{tables[other][n_]}` in {other}: the two locales have the same {what} rule in CLDR "
+                           f"(group {', '.join(grp)})", f"src/pendulum/locales/{l}/locale.py")
+                else:
+                    ctx.ob("PLURAL.sibling", f"{l}/{what}", True, f"agrees with its siblings ({', '.join(x for x in have if x != l)}) on 0..1000", f"src/pendulum/locales/{l}/locale.py", nontrivial=False)
 
 
 def _direction_markers(ctx, loc: str, data: dict, rel: str) -> None:
